@@ -183,6 +183,12 @@ def gen_constants(dump, custom_th=None, caps=None, track_hist=None):
         c.update(caps)
     opts = dict(dump["opts"])
     opts["switch_max_key_timing"] = dump["switch_max_key_timing"]
+    if dump.get("chv2"):      # defchordsv2 table: makes the ChordsV2.tla branch of Layout/Kanata reachable
+        opts["chv2"] = dump["chv2"]
+    # defseq trie: makes the SeqMode.tla branch of Kanata.tla reachable (only for configs that can enter the mode)
+    if isinstance(dump.get("sequences"), list) and (dump["sequences"] or opts.get("sequence_always_on")
+                                                    or '"seqleader"' in json.dumps(acts)):
+        opts["seqtrie"] = dump["sequences"]
     # the parser's KeyOutputs table (per layer: code -> ordered outputs), used by KeyRepeat.tla (C14)
     opts["key_outputs"] = [{"intmap": ko} for ko in dump.get("key_outputs", [])]
     lines = []
@@ -314,17 +320,22 @@ def replay_edges(kbd, edges_file, cap, shards=None):
         outp = part + ".res.json"
         procs.append((subprocess.Popen([HARNESS, "replay-edges", kbd, part, outp, str(cap)],
                                        stdout=subprocess.PIPE, stderr=subprocess.STDOUT, text=True), part, outp))
-    tot = {"edges": 0, "mismatches": 0, "panics": 0, "samples": []}
-    for p, part, outp in procs:
-        so, _ = p.communicate()
-        if p.returncode != 0:
-            raise ToolError("replay-edges failed: " + (so or ""))
-        r = json.load(open(outp))
-        for k in ("edges", "mismatches", "panics"):
-            tot[k] += r[k]
-        tot["samples"] += r["samples"][:10]
-        os.remove(part)
-        os.remove(outp)
+    tot = {"edges": 0, "mismatches": 0, "panics": 0, "samples": [], "drift_file": edges_file + ".drift.ndjson"}
+    with open(tot["drift_file"], "w") as df:
+        for p, part, outp in procs:
+            so, _ = p.communicate()
+            if p.returncode != 0:
+                raise ToolError("replay-edges failed: " + (so or ""))
+            r = json.load(open(outp))
+            for k in ("edges", "mismatches", "panics"):
+                tot[k] += r[k]
+            tot["samples"] += r["samples"][:10]
+            dpart = outp + ".drift.ndjson"
+            if os.path.exists(dpart):
+                df.write(open(dpart).read())
+                os.remove(dpart)
+            os.remove(part)
+            os.remove(outp)
     return tot
 
 
